@@ -28,7 +28,7 @@ SPEC = {
     "pins": ["RowHistory", "HistoryWiring", "RandomRange"],
     "harness": "harness.c10",
     "technique": "Lean 4 theorems over the history machine (arbitrary op sequences; draws as oracle arguments) and over the unique-context machine built on the C12 UpdatableRandomRange theorems + pins regenerated from the AST of row_history.py / data_generator_runtime.py + op-for-op trace correspondence of real runs with recorded draws + direct oracle on emitted rows",
-    "level_text": "Machine-checked proof, for every op sequence of the RowHistory machine (saves under any nickname layout, picks with any draw in range, iteration resets, continuation re-saves): nickname-scope picks return a saved row carrying that nickname and table with the drawn ordinal, from the current window when one exists; table-scope picks do so whenever ids are saved densely (DenseTrace), and the unrestricted statements are refuted by the D07 / D23 witnesses that the oracle reproduces on the real code; unique picks never repeat, stay in range, never fail while growing, use every target and then report exhaustion; the per-parent state rule re-creates the context exactly when the parent row changes.",
+    "level_text": "Machine-checked proof, for every op sequence of the RowHistory machine (saves under any nickname layout, picks with any draw in range, iteration resets, continuation re-saves): nickname-scope picks return a saved row carrying that nickname and table with the drawn ordinal, from the current window when one exists; table-scope picks do so whenever ids are saved densely (DenseTrace), table counters are monotone (fix 9826fcb), so without density a table pick is a row of the running iteration or an id reserved ahead but never an earlier row, re-saved just_once rows are never current, and the ranges one unique context sees never trip an UpdatableRandomRange assertion; the unrestricted existence statement is still refuted by the D07 witness that the oracle reproduces on the real code; unique picks never repeat, stay in range, never fail while growing, use every target and then report exhaustion; the per-parent state rule re-creates the context exactly when the parent row changes.",
     "level_note": "Trusted: Lean kernel; py2lean; the harness wrappers and recorded draws; sqlite UNIQUE/SELECT semantics as modelled (first matching row); CPython int/dict. The model is tied to the code by pinned expressions/skeletons and by replaying every traced call of every generated run.",
     "assumptions": [
         "random.randint(a, b) returns an int in [a, b] (the scope theorems take lo <= draw <= hi as hypothesis; the harness forces both ends)",
@@ -133,7 +133,7 @@ class Tracer:
         self.iter_marks = []  # (global start index, run, iter)
         self.row_offset = 0
         self.interp = None
-        self.in_resave = False
+        self.in_resave = None  # list of re-saved rows while inside resave_objects_from_continuation
         self.cur_uctx = None
         self.cur_gen = None
         self.cur_ctx = None
@@ -203,7 +203,11 @@ class Tracer:
             run["st0"] = digest(h)
 
         def save(h, tablename, nickname, row):
-            op = ["save", tablename, nickname, row["id"], bool(tr.in_resave)]
+            if tr.in_resave is not None:
+                # part of `resave_objects_from_continuation`: one composite op, logged by `resave`
+                tr.in_resave.append([tablename, nickname, row["id"]])
+                return o_save(h, tablename, nickname, row)
+            op = ["save", tablename, nickname, row["id"]]
             try:
                 rv = o_save(h, tablename, nickname, row)
             except Exception as e:  # noqa
@@ -214,7 +218,7 @@ class Tracer:
 
         def reset(h):
             rv = o_reset(h)
-            if getattr(h, "_verif_ready", False):
+            if getattr(h, "_verif_ready", False) and tr.in_resave is None:
                 h._verif_run["ops"].append({"op": ["reset"], "obs": ["ok"], "st": digest(h)})
             return rv
 
@@ -260,11 +264,18 @@ class Tracer:
             return res
 
         def resave(interp, globls, tables):
-            tr.in_resave = True
+            # the model's `Op.resave`: the re-saves followed by `reset_locals()` (fix 9826fcb)
+            tr.in_resave = []
+            h = interp.row_history
             try:
-                return o_resave(interp, globls, tables)
+                rv = o_resave(interp, globls, tables)
+            except Exception as e:  # noqa
+                h._verif_run["ops"].append({"op": ["resave", tr.in_resave], "err": type(e).__name__})
+                raise
             finally:
-                tr.in_resave = False
+                rows, tr.in_resave = tr.in_resave, None
+            h._verif_run["ops"].append({"op": ["resave", rows], "obs": ["ok"], "st": digest(h)})
+            return rv
 
         def loop_once(interp, statement_list, continuing):
             if statement_list is interp.statements:
